@@ -237,3 +237,14 @@ Proof.
   rewrite (filter_all _ _ Hall') in P.
   rewrite P. unfold dbs_of. rewrite <- (w_files _ _ D), map_map. reflexivity.
 Qed.
+
+(* the JUnit suite written at the end has exactly one case per selected file *)
+Theorem driver_junit_one_case_per_file cf sched st tr :
+  drun cf (dst0 cf) sched = (st, tr) ->
+  match d_phase st with DDrop _ | DClose | DEnd => True | _ => False end ->
+  fst (fst (junit_totals (results st))) = length (c_files cf).
+Proof.
+  intros H Hp. pose proof (driver_reports_each_file_once cf sched st tr H Hp) as P.
+  apply Permutation_length in P. unfold junit_totals. cbn [fst]. unfold results. rewrite !map_length in *.
+  unfold dbs_of in P. rewrite map_length in P. exact P.
+Qed.
